@@ -504,8 +504,9 @@ func (r *reader) curr() (ch rune, pos Pos) {
 	return buf.ch, buf.pos
 }
 
-// eof is a marker code point to signify that the reader can't read any more.
-const eof = rune(0)
+// eof is a marker to signify that the reader can't read any more. It is not
+// a valid code point, so no character of the input can be mistaken for it.
+const eof = rune(-1)
 
 // ScanDelimited reads a delimited set of runes
 func ScanDelimited(r io.RuneScanner, start, end rune, escapes map[rune]rune, escapesPassThru bool) ([]byte, error) {
